@@ -15,7 +15,8 @@ EXPLANATION = (
     "to usize on the success path is >= 0 resp. >= 1 and the other path builds IllegalFunctionCall; and "
     "one structural part of `counts clamped to the length`: (R3) the end of every substring range "
     "handed to str::get in the string built-ins is proved <= LEN(s); and one of `VAL(STR$(k)) = k`: (R4) "
-    "every numeric result VAL builds is negated exactly on the negative side of its sign test; (R5) UCASE$ / LCASE$ use the whole-string ASCII fold of the standard library, or their own character function maps all 128 ASCII characters as stated (evaluated per character).")
+    "every numeric result VAL builds is negated exactly on the negative side of its sign test; (R5) UCASE$ / LCASE$ use the whole-string ASCII fold of the standard library, or their own character function maps all 128 ASCII characters as stated (evaluated per character)."
+    " (R6) a built-in function writes to the variables of its call only through the result setter: it leaves its arguments, which are written back to the caller's variables when passed by reference, as it found them.")
 NOT_DECIDED = [
     "LEFT$/RIGHT$/MID$ substring equations, INSTR minimality, LEN additivity, UCASE$/LCASE$/LTRIM$/RTRIM$ "
     "laws, SPACE$ = STRING$, VAL(STR$(k)) = k (value-level string arithmetic)",
